@@ -2,6 +2,7 @@
 //! `vcheck replay <file>` re-executes one saved case without going through proptest.
 use vcore::{Ctx, J};
 
+mod c03;
 mod c06;
 
 type ReplayFn = fn(&Ctx, &J) -> Result<(), String>;
@@ -9,6 +10,7 @@ type RunFn = fn(&Ctx);
 
 fn table(prop: &str) -> Option<(RunFn, ReplayFn)> {
   Some(match prop {
+    "C03" => (c03::run, c03::replay),
     "C06" => (c06::run, c06::replay),
     _ => return None,
   })
